@@ -47,6 +47,30 @@ reg(
   "(depth > 25% of the smaller bounding radius) are judged on presence/sign/parameters only; contacts within 2e-4/3e-3 of their margin are boundary-skipped.",
 )
 
+reg(
+  "C09",
+  "property-based metamorphic testing (Hypothesis): batch == solo == permuted batch over generated multi-step histories with per-step resynchronisation",
+  "Rich models (contacts, every constraint kind, actuators, tendons, all integrators/solvers/cones, dense+sparse) x 2-5 worlds with different states/controls/forces "
+  "x permutations x 1-6 steps; each world's per-step result compared with its solo run and its permuted-batch run: counts and contact sets exactly, continuous "
+  "fields bitwise or within 1e-5 (2e-4 solver outputs; 2e-3 for Newton+sparse whose Hessian is accumulated in nworld-dependent atomic groups).",
+  "Ample capacities (overflowing cases discarded, counted); CPU device; ulp-level differences from loop vectorisation are accepted as round-off.",
+)
+reg(
+  "C12",
+  "property-based model-based testing (Hypothesis, generated call histories): dirty Data vs fresh Data after set_state, bitwise, with scratch poisoning",
+  "Two Data objects with different generated histories (steps, controls, reset_data) plus a fresh make_data receive the same integration state through "
+  "get_state/set_state; finite garbage is written into scratch regions a longer history could have left; step() and forward() must then agree bit-for-bit on "
+  "state, qacc, sensordata, contact and row multisets and iteration counts.",
+  "Same model, capacities and batch layout (so bitwise equality is the oracle); sleep-disabled models; overflowing cases discarded.",
+)
+reg(
+  "C37",
+  "property-based metamorphic testing (Hypothesis): step == step1;step2, forward idempotent and state-preserving",
+  "Rich models x Euler/implicitfast/implicit x random states after a warm-up: forward twice is bit-identical and leaves get_state(INTEGRATION) bit-unchanged; "
+  "step1;step2 reproduces step (state 1e-5, outputs 2e-4, row counts exact).",
+  "step() and step1/step2 use different (fused vs separate) factor/solve kernels, so that relation is judged up to round-off, not bitwise.",
+)
+
 NOT_APPLICABLE = {}
 
 
